@@ -493,11 +493,16 @@ def lifecycle_stage(chk, only_keys):
 def c09(chk):
     chk.rule = ("TLC explores the step machine of generate_method / purge_method (one action per storage call) from every "
                 "pre-state (target method absent / general-purpose / embedded in each relationship x every set of relationship "
-                "references incl. dangling ones) under EVERY subset of failing storage calls and checks all-or-nothing, "
-                "no-silent-orphan and references-kept when the call returns. Every complete behaviour is replayed on CoreDocument "
-                "and IotaDocument with fault-injecting wrappers around the shipped in-memory stores; result class, the exact "
-                "sequence of storage calls (name, failed), the abstract post-state, exact document restoration on error, store "
-                "cardinalities, sign+verify with a generated method and an untouched bystander are compared.")
+                "references incl. dangling ones; purge by the exact id and by an id carrying a URL query) under every subset of "
+                "failing storage calls -- quick: subsets of the calls the operation makes, combined with faults on calls it never "
+                "makes (exists / insert+sign / all others); thorough: every subset of the eight trait methods -- and checks "
+                "all-or-nothing, no-silent-orphan and references-kept when the call returns. Every complete behaviour is replayed "
+                "on CoreDocument and IotaDocument with fault-injecting wrappers around the shipped in-memory stores and judged by "
+                "the property itself: err => document (exactly) and both stores unchanged; ok => method resolves, key id "
+                "recorded, signing and verification work / after purge method, references, key and key id gone; undo_failed only "
+                "when a storage call really failed; an untouched bystander method keeps working. Deviations from the reference's "
+                "call sequence alone are reported as drift. Further stages: MethodDigest.tla (digest = f(fragment, key material) "
+                "only, pack/unpack) and Lifecycle.tla (fault-free histories: document, key store and key-id store stay in step).")
     r = chk.mc("StorageTxn", "StorageTxn_%s.cfg" % chk.tier, workers=4, timeout=600, heap="2g")
     chk.replay(r["cases_file"], timeout=3000)
     chk.canary_cases(r["cases_file"], flip_txn_case)
@@ -506,6 +511,9 @@ def c09(chk):
     chk.extra["unrepaired_design_counterexample_found"] = bool(pre["violated"])
     if not pre["violated"]:
         raise ToolError("the unrepaired rollback design (reinsert) should violate AllOrNothing — the invariant is vacuous")
+    # the key of the key-id store: MethodDigest depends on (fragment, key material) only -- MethodDigest.tla
+    md = chk.mc("MethodDigest", "MethodDigest_%s.cfg" % chk.tier, workers=4, timeout=300, heap="2g")
+    chk.replay(md["cases_file"], tag=".md", prop_driver="MD", timeout=1200, vacuity=False)
     # composition: histories of generate / purge / issue / validate without faults -- document, key store and key-id
     # store stay in step (judged here); validation verdicts over the same histories are judged by the C02 check
     lifecycle_stage(chk, r"lifecycle/(generate|purge|issue|attach|detach|panic|[a-z]+/inconsistent_state)")
@@ -658,10 +666,11 @@ def c01(chk):
     chk.rule = ("TLC explores the Decode;Verify machine of JwsVerify.tla from every received-token row: serialization x header "
                 "JSON shape (canonical / reordered with whitespace) x b64 absent/true/false x payload attached/empty/missing x "
                 "detached argument x alg in protected/unprotected/nowhere x alg pinned on the key absent/same/other x signature "
-                "over SI / over the re-encoded header / over another payload / garbage / wrong length x EdDSA/ES256/ES256K, "
+                "over SI / over the re-encoded header / over another payload / garbage / wrong length x EdDSA/ES256/ES256K x "
+                "(general serialization) the entry under test alone / preceded by a valid entry that agrees / disagrees on b64, "
                 "checking that 'verified' implies the verifier was called with exactly (protected alg, P.Y, caller's key). Every "
                 "row is built as real bytes with real signatures and run through the decoder with a recording verifier: signing "
-                "input, claims, alg source, verifier input and outcome are compared; for each of the 288 verifying rows every "
+                "input, claims, alg source, verifier input and outcome are compared; for each verifying row every "
                 "single-bit flip (quick: every bit for EdDSA rows, every ~6th for ECDSA rows; thorough: all) of the protected "
                 "segment, payload (attached or detached) and signature must fail.")
     r = chk.mc("JwsVerify", "JwsVerify_%s.cfg" % chk.tier, workers=4, timeout=600, heap="3g")
@@ -731,15 +740,20 @@ def flip_validation_case(rows, k=3):
 
 @plan("C02")
 def c02(chk):
-    chk.rule = ("TLC enumerates (a) the full signature-phase product: kid as full id of any of 9 (DID, fragment) pairs / fragment "
-                "only / absent / unparsable x configured method id (none or any of the 9) x scope none/assertionMethod/"
+    chk.rule = ("TLC enumerates (a) the full signature-phase product: kid as full id of any of 12 (DID, fragment) pairs (incl. a decoy "
+                "method of a foreign DID listed in the issuer document) / fragment only / absent / unparsable x configured method "
+                "id (none or any of the 12) x scope none/assertionMethod/"
                 "authentication x signing key K1/K2 x issuer claim (3 DIDs) x nonce on either side (3x3) x trusted documents "
-                "(issuer only / issuer + a foreign document listing the same key) = 38 880 rows; (b) the full unit-phase product: "
+                "(issuer only / issuer + a foreign document listing the same key); (b) the full unit-phase product: "
                 "issuance -1/0/+1 s, expiry absent/-1/0/+1 s, 4 structures, 4 subject-holder modes x holder x nonTransferable, 6 "
-                "status shapes x 3 status modes, fail-fast vs all-errors = 27 648 rows; (c) 60 rows with one failing condition in "
-                "each phase. The spec computes acceptance and the set of error kinds of the false conditions. Every row is issued "
-                "as a real EdDSA-signed JWT against real documents and run through validate / verify_signature: accept <=> all "
-                "conditions; a rejection must name a false condition (all of them when all errors are requested); the returned "
+                "status shapes x 3 status modes, fail-fast vs all-errors; (c) crafted claim sets stating expiry and issuance in "
+                "exp / nbf / iat / vc in every consistent and inconsistent way; (d) rows with one failing condition in each phase; "
+                "(e) Lifecycle.tla: every effective history of generate / purge / rotate / attach / detach / issue / revoke / "
+                "unrevoke up to the tier's depth plus long simulated ones, earlier tokens validated against the document as it is "
+                "now. The spec computes acceptance and the set of error kinds of the false conditions. Every row is issued "
+                "as a real EdDSA-signed JWT against real documents and run through validate / verify_signature: accepted only if all "
+                "conditions hold (a refusal of a row whose conditions all hold is reported as reference drift, not as a violation); "
+                "a rejection must name a false condition (all of them when all errors are requested); the returned "
                 "credential and custom claims must be the signed ones.")
     r = chk.mc("CredentialValidation", "CredentialValidation_%s.cfg" % chk.tier, workers=4, timeout=900, heap="6g")
     chk.replay(r["cases_file"], timeout=7000)
